@@ -101,7 +101,7 @@ def plan(tier):
     src = [KERNEL_HEAD]
     jobs = []
     kname = 'C13'
-    ints = ['i8', 'u8', 'i16', 'u16', 'i32', 'u32'] + (['u64'] if thorough else [])      # int64_t: out of memory (24 GB) with 20 recursion levels, not claimed
+    ints = ['i8', 'u8', 'i16', 'u16', 'i32', 'u32']      # int64_t / uint64_t: 20 recursion levels need 24+ GB (out of memory under load), not claimed
     for ts in ints:
         t = T(ts)
         cap = cap10(t)
